@@ -153,7 +153,7 @@ Definition sweep_scripts (with_dsub_below : bool) : list item :=
     end) bools) bools) bools) sub_task_variants) bools) bools) bools.
 
 Definition segs_vocab : list string :=
-  ["top"; "t_al"; "t-al"; "sub"; "my_task"; "my-task"; "al_x"; "al-x"; "in_ner"; "in-ner"; "deep"; "zz"].
+  ["top"; "t_al"; "t-al"; "sub"; "my_task"; "my-task"; "al_x"; "al-x"; "in_ner"; "in-ner"; "deep"; "zz"; ""].
 
 Definition names_vocab : list string :=
   segs_vocab ++
@@ -174,7 +174,7 @@ Lemma names_bounded : names_sweep (sweep_scripts false) = true.
 Proof. vm_compute. reflexivity. Qed.
 
 Lemma sweep_size : List.length (sweep_scripts false) = 128 /\ List.length (sweep_scripts true) = 192 /\
-                   List.length names_vocab = 45.
+                   List.length names_vocab = 48.
 Proof. vm_compute. auto. Qed.
 
 (** listings judged inside the guards of the partial statement: every tree for
